@@ -46,7 +46,7 @@ Definition is_behindb (la : lookkind) : bool := match la with LookBehind | LookB
 
 Fixpoint rokb (b : bool) (e : expr) : bool :=
   match e with
-  | Repeat c lo hi _ => N.leb lo hi && rokb b c
+  | Repeat c _ _ _ => rokb b c
   | Concat es | Alt es => (fix go (l : list expr) : bool := match l with [] => true | x :: r => rokb b x && go r end) es
   | Group c => rokb b c
   | LookAround c la => rokb false c && (negb (is_behindb la) || zokb c)
